@@ -1,6 +1,7 @@
 import Driver.Util
 import Driver.Iter
 import Driver.Recv
+import Driver.Gen
 
 /-!
 Line-protocol driver: one case per input line, `tag \t fields… \t observed`, one answer per line,
@@ -12,6 +13,8 @@ def dispatch (line : String) : String :=
   match splitTabs line with
   | "iter" :: rest => (handleIter rest).getD "BAD-CASE\t0"
   | "recv" :: rest => (handleRecv rest).getD "BAD-CASE\t0"
+  | "gen" :: rest => (handleGen rest).getD "BAD-CASE\t0"
+  | "netparse" :: rest => (handleNetParse rest).getD "BAD-CASE\t0"
   | _ => "BAD-TAG\t0"
 
 partial def loop (h : IO.FS.Stream) (out : IO.FS.Stream) : IO Unit := do
